@@ -61,7 +61,18 @@ func (auth *Authenticator) AuthenticateCookie(rq *http.Request, response http.Re
 	// One-time sessions must not refresh the cookie — they will be deleted on this request.
 	if sessionTimeElapsed > tenPercentOfTtl && (session.OneTime == nil || !*session.OneTime) {
 		session.Expiration = time.Now().Add(duration)
-		if err = auth.datastore.Set(auth.LogCtx, auth.DocIDForSession(session.ID), base.DurationToCbsExpiry(duration), nil, session); err != nil {
+		_, err = auth.datastore.Update(auth.LogCtx, auth.DocIDForSession(session.ID), base.DurationToCbsExpiry(duration), func(current []byte) ([]byte, *uint32, bool, error) {
+			// If the session has been deleted since it was read above, don't recreate it
+			if current == nil {
+				return nil, nil, false, base.ErrUpdateCancel
+			}
+			updated, marshalErr := base.JSONMarshal(session)
+			return updated, nil, false, marshalErr
+		})
+		if err == base.ErrUpdateCancel {
+			base.InfofCtx(auth.LogCtx, base.KeyAuth, "Session not found: %s", base.UD(cookie.Value))
+			return nil, base.HTTPErrorf(http.StatusUnauthorized, "Session Invalid")
+		} else if err != nil {
 			return nil, err
 		}
 		base.AddDbPathToCookie(rq, cookie)
